@@ -288,6 +288,7 @@ func (d *Data) handleSyncMessage(ctx *datastore.VersionedCtx, msg datastore.Sync
 	case labelmap.IngestedBlock:
 		chunkPt, _ := delta.BCoord.ToChunkPoint3d()
 		data, _ := delta.Data.MakeLabelVolume()
+		d.mapSupervoxelsToLabels(msg.Version, data)
 		d.ingestBlock(ctx, chunkPt, data, batcher)
 		mutID = delta.MutID
 
@@ -302,6 +303,8 @@ func (d *Data) handleSyncMessage(ctx *datastore.VersionedCtx, msg datastore.Sync
 		chunkPt, _ := delta.BCoord.ToChunkPoint3d()
 		prev, _ := delta.Prev.MakeLabelVolume()
 		data, _ := delta.Data.MakeLabelVolume()
+		d.mapSupervoxelsToLabels(msg.Version, prev)
+		d.mapSupervoxelsToLabels(msg.Version, data)
 		d.mutateBlock(ctx, delta.MutID, chunkPt, prev, data, batcher)
 		mutID = delta.MutID
 
@@ -361,6 +364,56 @@ func (d *Data) handleSyncMessage(ctx *datastore.VersionedCtx, msg datastore.Sync
 			activity["mutation_id"] = mutID
 		}
 		storage.LogActivityToKafka(activity)
+	}
+}
+
+// mapSupervoxelsToLabels rewrites a packed uint64 volume of labelmap supervoxel ids into
+// the mapped (body) labels of the given version, since label elements are keyed by mapped label.
+func (d *Data) mapSupervoxelsToLabels(v dvid.VersionID, vol []byte) {
+	var lm *labelmap.Data
+	for dataUUID := range d.SyncedData() {
+		if source, err := labelmap.GetByDataUUID(dataUUID); err == nil {
+			lm = source
+			break
+		}
+	}
+	if lm == nil {
+		return
+	}
+	seen := make(map[uint64]struct{})
+	var supervoxels []uint64
+	for i := 0; i+8 <= len(vol); i += 8 {
+		sv := binary.LittleEndian.Uint64(vol[i : i+8])
+		if sv == 0 {
+			continue
+		}
+		if _, found := seen[sv]; !found {
+			seen[sv] = struct{}{}
+			supervoxels = append(supervoxels, sv)
+		}
+	}
+	if len(supervoxels) == 0 {
+		return
+	}
+	mapped, found, err := lm.GetMappedLabels(v, supervoxels)
+	if err != nil {
+		dvid.Errorf("unable to map supervoxels of %q for sync of annotation %q: %v\n", lm.DataName(), d.DataName(), err)
+		return
+	}
+	remap := make(map[uint64]uint64)
+	for i, sv := range supervoxels {
+		if found[i] && mapped[i] != sv {
+			remap[sv] = mapped[i]
+		}
+	}
+	if len(remap) == 0 {
+		return
+	}
+	for i := 0; i+8 <= len(vol); i += 8 {
+		sv := binary.LittleEndian.Uint64(vol[i : i+8])
+		if label, found := remap[sv]; found {
+			binary.LittleEndian.PutUint64(vol[i:i+8], label)
+		}
 	}
 }
 
